@@ -132,31 +132,42 @@ def encodeText (numBytes : Nat) (payload : Bytes) : List Nat :=
 
 /-- `_make_data_array_element(parent, name, values, num_components)`;
     `ncomps` is `_array_num_components(values)` = number of scalars of `values[0]` unless given -/
-def makeDataArray (name : String) (a : WArr) (ncompsGiven : Option Nat) : Option DataArr := do
-  let ncomps ← match ncompsGiven with
-    | some k => some k
-    | none => if a.rows = 0 then none else some (prod a.tail)     -- RuntimeError on an empty array
-  let vtk ← dtypeToVtk a.dt                                       -- RuntimeError on an unknown dtype
-  let size := dtypeSize a.dt
-  some ⟨name, vtk, ncomps, encodeText (a.rows * ncomps * size) (itemsToBytes size a.items)⟩
+def numComps (a : WArr) (ncompsGiven : Option Nat) : Option Nat :=
+  match ncompsGiven with
+  | some k => some k
+  | none => if a.rows = 0 then none else some (prod a.tail)     -- RuntimeError on an empty array
+
+def makeDataArray (name : String) (a : WArr) (ncompsGiven : Option Nat) : Option DataArr :=
+  match numComps a ncompsGiven, dtypeToVtk a.dt with              -- RuntimeError on an unknown dtype
+  | some ncomps, some vtk =>
+    some ⟨name, vtk, ncomps, encodeText (a.rows * ncomps * dtypeSize a.dt) (itemsToBytes (dtypeSize a.dt) a.items)⟩
+  | _, _ => none
 
 /-- `NoCompressor.get_decompressed_data(data, Base64Encoder())` with `header_type` UInt64:
     joint header unless the first decode yields exactly the header -/
-def noCompRead (data : List Nat) : Option Bytes := do
-  let decoded ← b64dec data
-  if decoded.length < 8 then none else
-  let n := fromLe (decoded.take 8)
-  if decoded.length = 8 then do
-    let d2 ← b64dec (data.drop (b64enc decoded).length)
-    some (d2.take n)
-  else some ((decoded.drop 8).take n)
+def noCompRead (data : List Nat) : Option Bytes :=
+  match b64dec data with
+  | none => none
+  | some decoded =>
+    if decoded.length < 8 then none else
+    let n := fromLe (decoded.take 8)
+    if decoded.length = 8 then
+      match b64dec (data.drop (b64enc decoded).length) with
+      | none => none
+      | some d2 => some (d2.take n)
+    else some ((decoded.drop 8).take n)
 
 /-- `_get_inline_binary_data_array_values`: flat items of the declared type -/
-def readItems (e : DataArr) : Option (String × List Nat) := do
-  let dt ← vtkToDtype e.vtk
-  let bytes ← noCompRead e.text
-  let items ← frombuffer (dtypeSize dt) bytes
-  some (dt, items)
+def readItems (e : DataArr) : Option (String × List Nat) :=
+  match vtkToDtype e.vtk with
+  | none => none
+  | some dt =>
+    match noCompRead e.text with
+    | none => none
+    | some bytes =>
+      match frombuffer (dtypeSize dt) bytes with
+      | none => none
+      | some items => some (dt, items)
 
 /-! ### the writer -/
 
@@ -239,9 +250,13 @@ def writeVtu (cvt : Nat → Nat) (F : WFields) : Option VtuFile := do
 
 /-! ### the reader (`VTUReader._make_mesh`, `VTKXMLReader.read`) -/
 
+/-- positions (counted from `base`) of the entries equal to `t` -/
+def idxFrom (t : Nat) : Nat → List Nat → List Nat
+  | _, [] => []
+  | base, x :: r => if x == t then base :: idxFrom t (base + 1) r else idxFrom t (base + 1) r
+
 /-- indices `i` with `types[i] == t` (`np.equal(types, t).nonzero()`) -/
-def typeIndices (types : List Nat) (t : Nat) : List Nat :=
-  (List.range types.length).filter fun i => types.getD i 0 == t
+def typeIndices (types : List Nat) (t : Nat) : List Nat := idxFrom t 0 types
 
 /-- `np.unique(types)`: sorted distinct values -/
 def uniqueTypes (types : List Nat) : List Nat :=
